@@ -36,11 +36,20 @@ def verification_atoms(ctx, flow, fn, test):
     for a in C.atoms_of(test):
         t = flow.term(a, fn)
         for x in walk_terms(t):
-            if x[0] == "op" and x[1] == "cmp:Eq" and len(x[2]) == 2:
+            if x[0] == "op" and x[1] in ("cmp:Eq", "cmp:NotEq") and len(x[2]) == 2:
                 if any((y[0] == "ext" and y[1].startswith("hashlib.")) or (y[0] == "inst" and "Hasher" in y[1]) for s in x[2] for y in walk_terms(s)):
+                    if x[1] == "cmp:NotEq" and not (isinstance(a, ast.Compare) and len(a.ops) == 1 and isinstance(a.ops[0], ast.NotEq)):
+                        continue        # an inequality held in a variable: its sense at this test was not followed
                     out.append(a)
                     break
     return out
+
+
+def _when_not_verified(fn, a):
+    """World in which the hash comparison `a` fails, for an entry that has something to verify (a recorded length that is
+    not zero: an empty file records no hash and is placed by name and size alone)."""
+    differs = isinstance(a, ast.Compare) and len(a.ops) == 1 and isinstance(a.ops[0], ast.NotEq)
+    return lambda x: differs if x is a else C.nonempty_atom(fn, x)
 
 
 def _is_copy_call(ctx, fn, call):
@@ -84,7 +93,7 @@ def search_continues(ctx, flow, reach):
                     if t is None or b.ast not in list(ast.walk(loop)):
                         continue
                     for a in verification_atoms(ctx, flow, fn, t):
-                        forced = C.branch_when(b, lambda x, a=a: False if x is a else None)
+                        forced = C.branch_when(b, _when_not_verified(fn, a))
                         if forced is not None and forced != lab:
                             ok = True
                 kind = "return" if isinstance(e, ast.Return) else "break"
@@ -323,7 +332,22 @@ def reader_tolerates(ctx, reach):
             for b, lab in g.control_deps(cn):
                 t = C.test_expr(b)
                 if t is not None and any(isinstance(x, ast.Subscript) and const_str(x.slice) == "root" for x in ast.walk(t)):
+                    # for an empty file (every test of the recorded length fails) the test may be decided without the root
+                    empty = C.branch_when(b, lambda x: (not C.nonempty_atom(fn, x)) if C.nonempty_atom(fn, x) is not None else None)
+                    if empty is not None and empty == lab:
+                        continue
                     hash_tests.append(b)
+            if hash_tests:
+                # an empty file: every test of the recorded length fails, and no comparison with its (absent) root passes
+                def empty_world(x):
+                    ne = C.nonempty_atom(fn, x)
+                    if ne is not None:
+                        return not ne
+                    if isinstance(x, ast.Compare) and len(x.ops) == 1 and any(isinstance(y, ast.Subscript) and const_str(y.slice) == "root" for y in ast.walk(x)):
+                        return {ast.Eq: False, ast.NotEq: True}.get(type(x.ops[0]))
+                    return None
+                if cn in C.reach_under(g, g.entry, empty_world):
+                    hash_tests = []
             ctx.decide("C13.3", fn, not hash_tests, "the copy is not unconditionally tied to a root comparison: an empty file (no root recorded) can still be placed",
                        "the copy requires entry['root'] == computed root for every entry, but empty files record no root: they are never placed", c)
 
@@ -364,6 +388,12 @@ def reader_complete(ctx, reach):
                     ctx.holds("C13.4", fn, "the v1 file list is visited in the metafile's order", loop)
                 else:
                     ctx.undecided("C13.4", fn, "the v1 file list is visited through `%s`; whether the order is kept is not decided" % norm(it), loop)
+            work = C.in_worklist_loop(ctx, fn, loop)
+            if not ok and work is not None:
+                # a walk with its own stack: leaving the inner loop is how it descends, the rest of the level is resumed later
+                ctx.undecided("C13.4", fn, "reader loop `for %s in %s` runs inside a loop that keeps its own stack of open levels (`%s`): leaving it early is how such a walk descends; "
+                              "whether every entry is visited in the end is not read" % (norm(loop.target), norm(loop.iter), work), loop.iter)
+                continue
             ctx.decide("C13.4", fn, ok, "reader loop `for %s in %s` records or descends into every entry" % (norm(loop.target), norm(loop.iter)),
                        "reader loop `for %s in %s` can skip an entry (%s): that file is never searched for" % (norm(loop.target), norm(loop.iter), "early exit" if bad else "a path through the body records nothing"), loop.iter)
     ctx.floor("reader loops", 2, n)
